@@ -503,7 +503,11 @@ func runC13(s *Sim) {
 	if rx := B.RxBytesCounterValue(); readErr == nil && len(got) == total && rx != carried() {
 		s.Violate("C13.rx-counter", kind, "%s: RxBytesCounterValue=%d, the connection carried %d bytes", desc, rx, carried())
 	}
-	s.sample = map[string]any{"transport": kind, "compress": string(ctype), "level": level, "window_bits": bits, "fragmentation": fragKind, "writers": nWriters, "messages": total}
+	var readSizes []int
+	for _, m := range got {
+		readSizes = append(readSizes, len(m))
+	}
+	s.sample = map[string]any{"transport": kind, "compress": string(ctype), "level": level, "window_bits": bits, "fragmentation": fragKind, "writers": nWriters, "messages": total, "sizes_in_read_order": readSizes}
 	A.Close()
 	B.Close()
 	s.Wait()
